@@ -511,6 +511,29 @@ func (r *runner) runJSONStore(k kase) {
 			return "err serialize: " + err.Error()
 		}
 		_ = root
+		// json_chunks_concat on the implementation: the leaf blobs of the stored tree, in order,
+		// are exactly the serialized text handed to the chunker
+		text, err := gmstypes.MarshallJson(ctx, doc)
+		if err != nil {
+			return "err marshal: " + err.Error()
+		}
+		var cat []byte
+		nleaves := 0
+		if err := tree.WalkNodes(ctx, root, r.ns, func(ctx context.Context, n *tree.Node) error {
+			if n.IsLeaf() {
+				cat = append(cat, n.GetValue(0)...)
+				nleaves++
+			}
+			return nil
+		}); err != nil {
+			return "err walk: " + err.Error()
+		}
+		if !bytes.Equal(cat, text) {
+			return fmt.Sprintf("chunks: %d leaf blobs concatenate to %d bytes, serialized text has %d", nleaves, len(cat), len(text))
+		}
+		if nleaves > 1 {
+			r.e.Rep.Hit("json-store:multi-chunk")
+		}
 		jd := tree.NewJSONDoc(addr, r.ns)
 		w, err := jd.ToIndexedJSONDocument(ctx)
 		if err != nil {
